@@ -58,3 +58,11 @@ claim("C20", "history replay against an executable model (sequential histories, 
       "All operation histories up to length n over 14 operation instances and random histories up to length 40 (SetThis with fresh/shared/nil maps with and without $-entries, SetThisValue, Resolve of generated formulas that read and assign locals and fields, Set, Get) are replayed on a real runner and on a model; after every operation the result, every caller-held map and the auxiliary store must agree with the model.",
       "Trusts the model (map aliasing, locals as $-keys, separate store) and the reference evaluator for the formulas.",
       "5/C20")
+claim("C17", "reference-model monitor: byte-wise reference functions + algebraic laws, exhaustive over strings x positions",
+      "Each of the 18 string/list builtins is invoked through real formulas on every combination of 29 subject strings with every needle, every substring, every position from -3 to len+3, every pad and 32 patterns (plus random cases), and compared with independent byte-wise reference implementations; the laws left+right==s, startWith(s,left), endWith(s,right), find==-1 <=> !contains are evaluated as formulas; invalid regular expressions must be errors.",
+      "Trusts the 60 lines of reference string functions, unicode.ToLower/ToUpper for case maps and Go's regexp as RE2.",
+      "5/C17")
+claim("C18", "reference-model monitor: exact decimal model for the integer-valued functions, 320-bit series for sqrt/exp/ln/log, int64 for bit operators",
+      "abs/ceil/floor/toInt/roundBank are compared exactly, round by its contract (integer within 1/2), max/min by 'an argument bounding the others', sqrt/exp/ln/log by relative error <= 5e-15 against 320-bit series evaluations and by their inverse laws, toFloat/toString/finite by parse-back and NaN rules, & | ^ ~ against int64 two's complement; arguments cover ties of both parities and signs, near-integers, zero, -0 and magnitudes up to 1e30.",
+      "Trusts math/big and the 120-line series code; observed maximum relative errors are reported in the evidence (about 5e-16).",
+      "5/C18")
